@@ -383,7 +383,7 @@ func init() {
 		TrustedBase: baseTrusted,
 		Rules:       []RuleRun{{"R18", R18}, {"R16", R16}},
 		LevelText:   "Structural necessary conditions for 'the cache never changes results' decided on all paths of symbols.go and its callers. No test enables the key cache at all; correctness is a property of access histories against a capacity parameter, and the rules hold for every history because they are invariants of every insertion / eviction site.",
-		Technique:   "nil-result contradiction rule (path-sensitive use-before-test at call sites), single-assignment / same-value invariant of the intern table on SSA, alias-flow rule for interned keys",
+		Technique:   "nil-result contradiction rule (path-sensitive use-before-test at call sites), single-assignment / same-value invariant of the intern table on SSA, alias-flow rule for interned keys; whole-node store detection for the intern table",
 		DesignRef:   "DESIGN.md section 2 R18, R16; section 3 C20",
 	})
 }
